@@ -384,6 +384,9 @@ class TypeMap:
             tg = self.tag(e)
             self.seq_insts.setdefault(tg, e)
             return "struct vf_seq_" + tg
+        if last == "reverse_iterator" and t.args and "::" not in name.replace("std::", "", 1):
+            # std::reverse_iterator<It>: the value of its base() iterator; *r is *(base-1), ++r is --base (libmap)
+            return self.c(t.args[0])
         if last in SEQ_ITERS and t.args:
             a0 = t.args[0]
             if last == "__normal_iterator":
